@@ -162,22 +162,8 @@ Theorem decide_files_only_with_gates_open cfg env m cs csd tr o :
       runs (failure_detection cfg cs msd active m1 master light) tr_fd o_fd.
 Proof.
   unfold manager_decide. intros H e Hin Hf.
-  destruct (runs_bind_inv _ _ _ _ H) as [(t1 & t2 & mr & R1 & R2 & ->)|(s & R1 & ->)].
-  2:{ exfalso. exact (qt_no _ _ (qt_of _ _ _ (nf_get_master cs) R1) Hin Hf). }
-  pose proof (qt_of _ _ _ (nf_get_master cs) R1) as Q1.
-  apply in_app_or in Hin. destruct Hin as [Hin|Hin]; [exfalso; exact (qt_no _ _ Q1 Hin Hf)|].
-  destruct mr as [master| | |].
-  2,3,4: exfalso; try (cbn in R2; destruct R2 as [-> _]; destruct Hin).
-  2:{ cbn [runs] in R2. destruct t2 as [|x t3]; [destruct R2|]. destruct R2 as (_ & Ex & R2). cbn in R2. destruct R2 as [-> _].
-      destruct Hin as [<-|[]]. rewrite Ex in Hf. exact Hf. }
-  destruct (negb (mem_host master (map fst (all_hosts m)))); [exfalso; cbn in R2; destruct R2 as [-> _]; destruct Hin|].
-  (* read of the active list *)
-  cbn [runs] in R2. destruct t2 as [|ea t3]; [destruct R2|]. destruct R2 as (_ & Ea & R2).
-  destruct Hin as [<-|Hin]; [exfalso; rewrite Ea in Hf; exact Hf|].
-  destruct (match ev_resp ea with RVal (VHosts l) => Some l | RErr ENotFound | RErr EMalformed | RVal _ => Some [] | _ => None end) as [active|];
-    [|exfalso; cbn in R2; destruct R2 as [-> _]; destruct Hin].
   (* read of the maintenance record *)
-  cbn [runs] in R2. destruct t3 as [|em t4]; [destruct R2|]. destruct R2 as (_ & Em & R2).
+  cbn [runs] in H. destruct tr as [|em t4]; [destruct H|]. destruct H as (_ & Em & R2).
   destruct Hin as [<-|Hin]; [exfalso; rewrite Em in Hf; exact Hf|].
   set (rm := ev_resp em) in *.
   destruct (runs_bind_inv _ _ _ _ R2) as [(u1 & u2 & fe & F1 & F2 & ->)|(s & F1 & ->)].
@@ -192,7 +178,25 @@ Proof.
   destruct fe; [exfalso; cbn in F2; destruct F2 as [-> _]; destruct Hin|].
   destruct (match rm with RVal (VMaint _) | RErr ENotFound => false | _ => true end) eqn:Erf;
     [exfalso; cbn in F2; destruct F2 as [-> _]; destruct Hin|].
-  destruct (runs_bind_inv _ _ _ _ F2) as [(h1 & h2 & mh & M1 & M2 & ->)|(s & M1 & ->)].
+  destruct (match (match rm with RVal (VMaint mt) => Some mt | _ => None end) with Some mt => negb (mt_light mt) && mt_paused mt | None => false end) eqn:Eack;
+    [exfalso; cbn in F2; destruct F2 as [-> _]; destruct Hin|].
+  (* the master *)
+  destruct (runs_bind_inv _ _ _ _ F2) as [(t1 & t2 & mr & R1 & R2' & ->)|(s & R1 & ->)].
+  2:{ exfalso. exact (qt_no _ _ (qt_of _ _ _ (nf_get_master cs) R1) Hin Hf). }
+  pose proof (qt_of _ _ _ (nf_get_master cs) R1) as Q1.
+  apply in_app_or in Hin. destruct Hin as [Hin|Hin]; [exfalso; exact (qt_no _ _ Q1 Hin Hf)|].
+  destruct mr as [master| | |].
+  2,3,4: exfalso; try (cbn in R2'; destruct R2' as [-> _]; destruct Hin).
+  2:{ cbn [runs] in R2'. destruct t2 as [|x t3]; [destruct R2'|]. destruct R2' as (_ & Ex & R2'). cbn in R2'. destruct R2' as [-> _].
+      destruct Hin as [<-|[]]. rewrite Ex in Hf. exact Hf. }
+  destruct (negb (mem_host master (map fst (all_hosts m)))); [exfalso; cbn in R2'; destruct R2' as [-> _]; destruct Hin|].
+  (* read of the active list *)
+  cbn [runs] in R2'. destruct t2 as [|ea t3]; [destruct R2'|]. destruct R2' as (_ & Ea & R2').
+  destruct Hin as [<-|Hin]; [exfalso; rewrite Ea in Hf; exact Hf|].
+  destruct (match ev_resp ea with RVal (VHosts l) => Some l | RErr ENotFound | RErr EMalformed | RVal _ => Some [] | _ => None end) as [active|];
+    [|exfalso; cbn in R2'; destruct R2' as [-> _]; destruct Hin].
+  rename R2' into F2'.
+  destruct (runs_bind_inv _ _ _ _ F2') as [(h1 & h2 & mh & M1 & M2 & ->)|(s & M1 & ->)].
   2:{ exfalso. exact (qt_no _ _ (qt_of _ _ _ (nf_handle_maint _ _ _ _ _) M1) Hin Hf). }
   pose proof (qt_of _ _ _ (nf_handle_maint _ _ _ _ _) M1) as QM.
   apply in_app_or in Hin. destruct Hin as [Hin|Hin]; [exfalso; exact (qt_no _ _ QM Hin Hf)|].
@@ -230,11 +234,11 @@ Proof.
   assert (LIGHT : rm = RErr ENotFound -> light = false) by (intros ->; reflexivity).
   assert (LIGHT2 : forall mt, rm = RVal (VMaint mt) -> mt_light mt = true -> light = true) by (intros mt -> K; exact K).
   (* the two reads, for the conclusion *)
-  assert (INm : In em (t1 ++ ea :: em :: u1 ++ h1 ++ es :: h3)) by (apply in_or_app; right; right; left; reflexivity).
-  assert (INs : In es (t1 ++ ea :: em :: u1 ++ h1 ++ es :: h3)).
-  { apply in_or_app; right; right; right. apply in_or_app; right. apply in_or_app; right. left; reflexivity. }
-  assert (LIFT : forall tq, incl tq h3 -> incl tq (t1 ++ ea :: em :: u1 ++ h1 ++ es :: h3)).
-  { intros tq Hq x Hx. apply in_or_app; right; right; right. apply in_or_app; right. apply in_or_app; right. right. apply Hq. exact Hx. }
+  assert (INm : In em (em :: u1 ++ t1 ++ ea :: h1 ++ es :: h3)) by (left; reflexivity).
+  assert (INs : In es (em :: u1 ++ t1 ++ ea :: h1 ++ es :: h3)).
+  { right. apply in_or_app; right. apply in_or_app; right. right. apply in_or_app; right. left; reflexivity. }
+  assert (LIFT : forall tq, incl tq h3 -> incl tq (em :: u1 ++ t1 ++ ea :: h1 ++ es :: h3)).
+  { intros tq Hq x Hx. right. apply in_or_app; right. apply in_or_app; right. right. apply in_or_app; right. right. apply Hq. exact Hx. }
   destruct (ev_resp es) as [er| | | | | | | | | | |v| | |] eqn:Ers;
     try (exfalso; cbn in M2; destruct M2 as [-> _]; destruct Hin; fail).
   - destruct er; try (exfalso; cbn in M2; destruct M2 as [-> _]; destruct Hin; fail).
@@ -373,7 +377,6 @@ Proof.
   induction l as [|h r IH]; intros p; cbn [read_states]; [exact I|].
   apply allcalls_bind; [unfold opt_get_state; nfa|]. intros [a e].
   destruct a as [[en|]|]; destruct e; try exact I; try apply IH.
-  destruct (classify env mrs en (assoc h (ov_states env))); try apply IH. exact I.
 Qed.
 Lemma nf_opt_sync env : allcalls (fun _ c => nofile c) (opt_sync env).
 Proof.
@@ -382,7 +385,7 @@ Proof.
     destruct (mem_host _ _); [unfold repl_settings; nfa|exact I]. }
   intros m. destruct (snd m); [exact I|]. unfold sync_with.
   apply allcalls_bind; [unfold dcs_children_; nfa|]. intros hs. destruct (snd hs); [exact I|].
-  apply allcalls_bind; [apply nf_read_states|]. intros r. destruct r as [p|e|]; try exact I.
+  apply allcalls_bind; [apply nf_read_states|]. intros r. destruct r as [p|e]; try exact I.
   unfold sync_act. apply allcalls_bind.
   { unfold disable_nodes. destruct (op_optimized p ++ op_malf p) eqn:E; [exact I|]. rewrite <- E.
     apply allcalls_bind; [apply nf_stop_nodes|]. intros [x|]; [exact I|apply nf_delete_hosts]. }
@@ -463,20 +466,23 @@ Lemma decide_tail_context cfg env m cs csd tr c m' :
   (exists gm, In gm tr /\ read_absent PMaintenance gm) /\ (exists gs, In gs tr /\ read_absent PSwitch gs).
 Proof.
   unfold manager_decide. intros H Hl.
-  destruct (runs_bind_inv _ _ _ _ H) as [(t1 & t2 & mr & R1 & R2 & ->)|(s & _ & K)]; [|discriminate K].
-  destruct mr as [master| | |]; try (cbn in R2; destruct R2 as [_ K]; discriminate K).
-  2:{ cbn [runs] in R2. destruct t2 as [|x t3]; [destruct R2|]. destruct R2 as (_ & _ & R2). cbn in R2. destruct R2 as [_ K]; discriminate K. }
-  destruct (negb (mem_host master (map fst (all_hosts m)))); [cbn in R2; destruct R2 as [_ K]; discriminate K|].
-  cbn [runs] in R2. destruct t2 as [|ea t3]; [destruct R2|]. destruct R2 as (_ & Ea & R2).
-  destruct (match ev_resp ea with RVal (VHosts l) => Some l | RErr ENotFound | RErr EMalformed | RVal _ => Some [] | _ => None end) as [active|];
-    [|cbn in R2; destruct R2 as [_ K]; discriminate K].
-  cbn [runs] in R2. destruct t3 as [|em t4]; [destruct R2|]. destruct R2 as (_ & Em & R2).
+  cbn [runs] in H. destruct tr as [|em t4]; [destruct H|]. destruct H as (_ & Em & R2).
   set (rm := ev_resp em) in *.
   destruct (runs_bind_inv _ _ _ _ R2) as [(u1 & u2 & fe & F1 & F2 & ->)|(s & _ & K)]; [|discriminate K].
   destruct fe; [cbn in F2; destruct F2 as [_ K]; discriminate K|].
   destruct (match rm with RVal (VMaint _) | RErr ENotFound => false | _ => true end) eqn:Erf;
     [cbn in F2; destruct F2 as [_ K]; discriminate K|].
-  destruct (runs_bind_inv _ _ _ _ F2) as [(h1 & h2 & mh & M1 & M2 & ->)|(s & _ & K)]; [|discriminate K].
+  destruct (match (match rm with RVal (VMaint mt) => Some mt | _ => None end) with Some mt => negb (mt_light mt) && mt_paused mt | None => false end) eqn:Eack;
+    [cbn in F2; destruct F2 as [_ K]; discriminate K|].
+  destruct (runs_bind_inv _ _ _ _ F2) as [(t1 & t2 & mr & R1 & R2' & ->)|(s & _ & K)]; [|discriminate K].
+  destruct mr as [master| | |]; try (cbn in R2'; destruct R2' as [_ K]; discriminate K).
+  2:{ cbn [runs] in R2'. destruct t2 as [|x t3]; [destruct R2'|]. destruct R2' as (_ & _ & R2'). cbn in R2'. destruct R2' as [_ K]; discriminate K. }
+  destruct (negb (mem_host master (map fst (all_hosts m)))); [cbn in R2'; destruct R2' as [_ K]; discriminate K|].
+  cbn [runs] in R2'. destruct t2 as [|ea t3]; [destruct R2'|]. destruct R2' as (_ & Ea & R2').
+  destruct (match ev_resp ea with RVal (VHosts l) => Some l | RErr ENotFound | RErr EMalformed | RVal _ => Some [] | _ => None end) as [active|];
+    [|cbn in R2'; destruct R2' as [_ K]; discriminate K].
+  rename R2' into F2'.
+  destruct (runs_bind_inv _ _ _ _ F2') as [(h1 & h2 & mh & M1 & M2 & ->)|(s & _ & K)]; [|discriminate K].
   destruct (fst mh) as [nx|] eqn:Emh; [cbn in M2; destruct M2 as [_ K]; discriminate K|].
   cbn [runs] in M2. destruct h2 as [|es h3]; [destruct M2|]. destruct M2 as (_ & Es & M2).
   set (light := match (match rm with RVal (VMaint mt) => Some mt | _ => None end) with Some mt => mt_light mt | None => false end) in *.
@@ -497,9 +503,9 @@ Proof.
       + destruct (runs_bind_inv _ _ _ _ M1) as [(x1 & x2 & ee & _ & X2 & _)|(s & _ & K)]; [|discriminate K].
         cbn in X2. destruct X2 as [_ K]. inversion K as [K']. subst mh. cbn in Emh. destruct ee; discriminate Emh.
       + cbn in M1. destruct M1 as [_ K]. inversion K as [K']. subst mh. cbn in Emh. discriminate Emh. }
-  assert (INm : In em (t1 ++ ea :: em :: u1 ++ h1 ++ es :: h3)) by (apply in_or_app; right; right; left; reflexivity).
-  assert (INs : In es (t1 ++ ea :: em :: u1 ++ h1 ++ es :: h3)).
-  { apply in_or_app; right; right; right. apply in_or_app; right. apply in_or_app; right. left; reflexivity. }
+  assert (INm : In em (em :: u1 ++ t1 ++ ea :: h1 ++ es :: h3)) by (left; reflexivity).
+  assert (INs : In es (em :: u1 ++ t1 ++ ea :: h1 ++ es :: h3)).
+  { right. apply in_or_app; right. apply in_or_app; right. right. apply in_or_app; right. left; reflexivity. }
   destruct (ev_resp es) as [er| | | | | | | | | | |v| | |] eqn:Ers;
     try (cbn in M2; destruct M2 as [_ K]; discriminate K).
   - destruct er; try (cbn in M2; destruct M2 as [_ K]; discriminate K).
@@ -556,10 +562,10 @@ Qed.
 
 (* ================================================================ C09: the manager iteration under acknowledged full maintenance
    A process that runs stateManager (e.g. it was restarted) while full maintenance is acknowledged only READS:
-   it refreshes the registry, looks at the servers and the health records, reads the master key, the active
-   list and the maintenance record - and goes to the paused state.  (Hypothesis forced by the proof: the master
-   key is readable; with an unreadable master key getCurrentMaster re-learns and WRITES the master before the
-   maintenance record is looked at - see DESIGN.md, C09.) *)
+   it refreshes the registry, looks at the servers and the health records, reads the maintenance record - and goes
+   to the paused state.  (Before the repairs b339185 / 38205c1 in /repo the master key was looked up first and a
+   missing or unreadable key was re-learned and WRITTEN before the maintenance record was looked at; the proof
+   needed "the master key is readable" as a hypothesis - see DESIGN.md, C09.) *)
 Definition readb (c : call) : bool :=
   match c with
   | Sql _ st => stmt_reads st
@@ -608,13 +614,12 @@ Qed.
 
 Theorem manager_frozen_when_acknowledged cfg env m tr o :
   runs (manager_gates cfg env m) tr o ->
-  (forall e, In e tr -> ev_call e = DcsGet PMaster -> (exists h, ev_resp e = RVal (VHost h)) \/ (exists er, ev_resp e = RErr er /\ er <> ENotFound /\ er <> EMalformed)) ->
   (forall e, In e tr -> ev_call e = DcsGet PMaintenance ->
      exists mt, ev_resp e = RVal (VMaint mt) /\ mt_light mt = false /\ mt_paused mt = true) ->
   only_reads tr /\ (forall c m', o <> Done (GTail c, m')) /\
   (forall e, In e tr -> ev_call e = DcsGet PMaintenance -> exists m', o = Done (GNext NxMaintenance, m')).
 Proof.
-  unfold manager_gates. intros H Hmaster Hmaint.
+  unfold manager_gates. intros H Hmaint.
   (* DcsConnected *)
   cbn [bind runs] in H. destruct tr as [|e0 tr0]; [destruct H|]. destruct H as (_ & Ec0 & H).
   assert (R0 : readb (ev_call e0) = true) by (rewrite Ec0; reflexivity).
@@ -625,26 +630,23 @@ Proof.
                    (forall e, In e (e0 :: t) -> ev_call e = DcsGet PMaintenance -> exists m', o = Done (GNext NxMaintenance, m')))).
   { intros t (A & B & C). split; [constructor; assumption|]. split; [exact B|]. intros e [<-|Hi] He; [contradiction|exact (C e Hi He)]. }
   apply WRAP. clear WRAP.
-  assert (Hmaster0 : forall e, In e tr0 -> ev_call e = DcsGet PMaster -> (exists h, ev_resp e = RVal (VHost h)) \/ (exists er, ev_resp e = RErr er /\ er <> ENotFound /\ er <> EMalformed)) by (intros e Hi; apply Hmaster; right; exact Hi).
   assert (Hmaint0 : forall e, In e tr0 -> ev_call e = DcsGet PMaintenance -> exists mt, ev_resp e = RVal (VMaint mt) /\ mt_light mt = false /\ mt_paused mt = true) by (intros e Hi; apply Hmaint; right; exact Hi).
-  clear Hmaster Hmaint R0 NM0 Ec0.
+  clear Hmaint R0 NM0 Ec0.
   (* a generic step: a read-only first part that does not read the maintenance record *)
   assert (STEP : forall (A : Type) (p : prog A) (f : A -> prog (gate_res * mgr_mem)) t,
      allcalls (fun _ c => readb c = true /\ c <> DcsGet PMaintenance) p ->
      runs (bind p f) t o ->
-     (forall e, In e t -> ev_call e = DcsGet PMaster -> (exists h, ev_resp e = RVal (VHost h)) \/ (exists er, ev_resp e = RErr er /\ er <> ENotFound /\ er <> EMalformed)) ->
      (forall e, In e t -> ev_call e = DcsGet PMaintenance -> exists mt, ev_resp e = RVal (VMaint mt) /\ mt_light mt = false /\ mt_paused mt = true) ->
      (forall a t2, runs (f a) t2 o ->
-        (forall e, In e t2 -> ev_call e = DcsGet PMaster -> (exists h, ev_resp e = RVal (VHost h)) \/ (exists er, ev_resp e = RErr er /\ er <> ENotFound /\ er <> EMalformed)) ->
         (forall e, In e t2 -> ev_call e = DcsGet PMaintenance -> exists mt, ev_resp e = RVal (VMaint mt) /\ mt_light mt = false /\ mt_paused mt = true) ->
         only_reads t2 /\ (forall c m', o <> Done (GTail c, m')) /\
         (forall e, In e t2 -> ev_call e = DcsGet PMaintenance -> exists m', o = Done (GNext NxMaintenance, m'))) ->
      only_reads t /\ (forall c m', o <> Done (GTail c, m')) /\
      (forall e, In e t -> ev_call e = DcsGet PMaintenance -> exists m', o = Done (GNext NxMaintenance, m'))).
-  { intros A p f t Hq R HM HMt K.
+  { intros A p f t Hq R HMt K.
     destruct (runs_bind_inv _ _ _ _ R) as [(t1 & t2 & a & R1 & R2 & ->)|(s & R1 & ->)].
     - pose proof (allcalls_sound _ p Hq t1 _ R1) as F.
-      destruct (K a t2 R2 (fun e Hi => HM e (in_or_app _ _ _ (or_intror Hi))) (fun e Hi => HMt e (in_or_app _ _ _ (or_intror Hi)))) as (A1 & B1 & C1).
+      destruct (K a t2 R2 (fun e Hi => HMt e (in_or_app _ _ _ (or_intror Hi)))) as (A1 & B1 & C1).
       split; [apply or_app; [eapply Forall_impl; [|exact F]; intros e [X _]; exact X|exact A1]|]. split; [exact B1|].
       intros e Hi He. apply in_app_or in Hi. destruct Hi as [Hi|Hi]; [|exact (C1 e Hi He)].
       exfalso. rewrite Forall_forall in F. destruct (F e Hi) as [_ X]. exact (X He).
@@ -661,60 +663,28 @@ Proof.
   destruct (match ev_resp e0 with RBool b => b | _ => false end); cbn [negb] in H.
   2:{ cbn in H. destruct H as [-> ->]. split; [constructor|]. split; [discriminate|]. intros e []. }
   (* lock *)
-  eapply (STEP _ _ _ tr0); [| exact H | exact Hmaster0 | exact Hmaint0 |].
+  eapply (STEP _ _ _ tr0); [| exact H | exact Hmaint0 |].
   { apply NOM; [unfold lock_acquire; cbn [allcalls]; split; [reflexivity|intros r; destruct r; exact I]|].
     unfold lock_acquire; cbn [allcalls]; split; [discriminate|intros r; destruct r; exact I]. }
-  intros l t1 R1 HM1 HMt1. cbv beta in R1. destruct (negb l).
+  intros l t1 R1 HMt1. cbv beta in R1. destruct (negb l).
   { cbn in R1. destruct R1 as [-> ->]. split; [constructor|]. split; [discriminate|]. intros e []. }
-  eapply (STEP _ _ _ t1); [| exact R1 | exact HM1 | exact HMt1 |].
+  eapply (STEP _ _ _ t1); [| exact R1 | exact HMt1 |].
   { apply NOM; [apply rd_update_hosts|apply um_update_hosts]. }
-  intros u t2 R2 HM2 HMt2. cbv beta in R2.
-  eapply (STEP _ _ _ t2); [| exact R2 | exact HM2 | exact HMt2 |].
+  intros u t2 R2 HMt2. cbv beta in R2.
+  eapply (STEP _ _ _ t2); [| exact R2 | exact HMt2 |].
   { apply NOM; [apply rd_cluster_state|].
     eapply allcalls_impl; [|apply (c_cluster_state (fun c => match c with DcsGet PMaintenance => false | _ => true end)); intros; reflexivity].
     intros s c Hc E. subst c. discriminate Hc. }
-  intros cs t3 R3 HM3 HMt3. cbv beta in R3.
-  eapply (STEP _ _ _ t3); [| exact R3 | exact HM3 | exact HMt3 |].
+  intros cs t3 R3 HMt3. cbv beta in R3.
+  eapply (STEP _ _ _ t3); [| exact R3 | exact HMt3 |].
   { apply NOM; [apply rd_cluster_state_dcs|apply um_cluster_state_dcs]. }
-  intros ocsd t4 R4 HM4 HMt4. cbv beta in R4.
+  intros ocsd t4 R4 HMt4. cbv beta in R4.
   destruct ocsd as [csd|]; [|cbn in R4; destruct R4 as [-> ->]; split; [constructor|]; split; [discriminate|]; intros e []].
-  (* manager_decide: the master key is readable *)
-  unfold manager_decide, get_current_master in R4. cbn [bind runs] in R4.
-  destruct t4 as [|eM t5]; [destruct R4|]. destruct R4 as (_ & EcM & R4).
-  assert (RM0 : readb (ev_call eM) = true) by (rewrite EcM; reflexivity).
-  destruct (HM4 eM (or_introl eq_refl) EcM) as [(hm & ErM)|(er & ErM & N1 & N2)].
-  2:{ (* the read failed: the iteration ends, nothing was written *)
-      rewrite ErM in R4. destruct er; try contradiction; cbn in R4; destruct R4 as [-> ->];
-        (split; [constructor; [exact RM0|constructor]|]; split; [discriminate|];
-         intros e [<-|[]] He; rewrite EcM in He; discriminate He). }
-  rewrite ErM in R4. cbn [bind] in R4.
-  assert (RM : readb (ev_call eM) = true) by (rewrite EcM; reflexivity).
-  assert (NMM : ev_call eM <> DcsGet PMaintenance) by (rewrite EcM; discriminate).
-  assert (WRAP : forall t, (only_reads t /\ (forall c m', o <> Done (GTail c, m')) /\
-                   (forall e, In e t -> ev_call e = DcsGet PMaintenance -> exists m', o = Done (GNext NxMaintenance, m'))) ->
-                 (only_reads (eM :: t) /\ (forall c m', o <> Done (GTail c, m')) /\
-                   (forall e, In e (eM :: t) -> ev_call e = DcsGet PMaintenance -> exists m', o = Done (GNext NxMaintenance, m')))).
-  { intros t (A & B & C). split; [constructor; assumption|]. split; [exact B|]. intros e [<-|Hi] He; [contradiction|exact (C e Hi He)]. }
-  apply WRAP. clear WRAP.
-  destruct (negb (mem_host hm (map fst (all_hosts (snd u))))).
-  { cbn in R4. destruct R4 as [-> ->]. split; [constructor|]. split; [discriminate|]. intros e []. }
-  (* the active list *)
-  cbn [runs] in R4. destruct t5 as [|eA t6]; [destruct R4|]. destruct R4 as (_ & EcA & R4).
-  assert (RA : readb (ev_call eA) = true) by (rewrite EcA; reflexivity).
-  assert (NMA : ev_call eA <> DcsGet PMaintenance) by (rewrite EcA; discriminate).
-  assert (WRAP : forall t, (only_reads t /\ (forall c m', o <> Done (GTail c, m')) /\
-                   (forall e, In e t -> ev_call e = DcsGet PMaintenance -> exists m', o = Done (GNext NxMaintenance, m'))) ->
-                 (only_reads (eA :: t) /\ (forall c m', o <> Done (GTail c, m')) /\
-                   (forall e, In e (eA :: t) -> ev_call e = DcsGet PMaintenance -> exists m', o = Done (GNext NxMaintenance, m')))).
-  { intros t (A & B & C). split; [constructor; assumption|]. split; [exact B|]. intros e [<-|Hi] He; [contradiction|exact (C e Hi He)]. }
-  apply WRAP. clear WRAP.
-  destruct (match ev_resp eA with RVal (VHosts l) => Some l | RErr ENotFound | RErr EMalformed | RVal _ => Some [] | _ => None end) as [active|].
-  2:{ cbn in R4. destruct R4 as [-> ->]. split; [constructor|]. split; [discriminate|]. intros e []. }
-  (* the maintenance record: full, acknowledged *)
-  cbn [runs] in R4. destruct t6 as [|eT t7]; [destruct R4|]. destruct R4 as (_ & EcT & R4).
-  assert (InT : In eT (eM :: eA :: eT :: t7)) by (right; right; left; reflexivity).
-  destruct (HMt4 eT InT EcT) as (mt & ErT & Hlight & Hpaused). rewrite ErT in R4. cbn [bind] in R4.
-  unfold handle_maintenance in R4. rewrite Hlight, Hpaused in R4. cbn in R4. destruct R4 as [-> ->].
+  (* manager_decide: the maintenance record is the first thing it reads *)
+  unfold manager_decide in R4. cbn [bind runs] in R4.
+  destruct t4 as [|eT t7]; [destruct R4|]. destruct R4 as (_ & EcT & R4).
+  destruct (HMt4 eT (or_introl eq_refl) EcT) as (mt & ErT & Hlight & Hpaused). rewrite ErT in R4. cbn [bind] in R4.
+  rewrite Hlight, Hpaused in R4. cbn in R4. destruct R4 as [-> ->].
   split; [constructor; [rewrite EcT; reflexivity|constructor]|]. split; [discriminate|].
   intros e [<-|[]] _. eexists. reflexivity.
 Qed.
